@@ -473,7 +473,7 @@ pub enum FaultKind {
 		name: String,
 		value: serde_json::Value,
 	},
-	/// certificate body replaced: "garbage" | "empty" | "other_key" | "truncated" | "not_utf8"
+	/// certificate body replaced: "garbage" | "empty" | "other_key" | "truncated" | "not_utf8" | "issuer_first" | "leaf_then_truncated"
 	CertBody { what: String },
 	/// reply body that is not JSON (on a 2xx)
 	NotJson,
